@@ -13,7 +13,7 @@ def theorems(pid):
     p = os.path.join(ROOT, 'lean', 'Binson', 'Props', pid + '.lean')
     if not os.path.exists(p): return []
     src = re.sub(r'/-.*?-/', '', open(p).read(), flags=re.S); src = re.sub(r'--.*', '', src)
-    return re.findall(r'^\s*theorem\s+([A-Za-z_][\w\.]*)', src, re.M)
+    return re.findall(r"^\s*theorem\s+([A-Za-z_][\w\.']*)", src, re.M)
 
 # per property: (what the theorems say, what is NOT covered by them)  -- edited by hand as proofs land
 TEXT = json.load(open(os.path.join(ROOT, 'tools', 'levels.json')))
